@@ -9,7 +9,8 @@ import MsqModel.Convert
   group holding the comma-separated lines (column definitions, then — MySQL — `PRIMARY KEY`, `UNIQUE KEY`s, `KEY`s, `FULLTEXT KEY`s),
   then the table options in the printer's order.  A column definition is: back-quoted name, type word, a group with the
   comma-separated parameters, each bracketed when above the compute level (dropped by the Hive printer outside DECIMAL / VARCHAR / CHAR: `hiveDrops`), the attributes in the order
-  of `prDefCol` (MySQL only: UNSIGNED, ZEROFILL, CHARACTER SET s, COLLATE s, NULL, NOT NULL, AUTO_INCREMENT, DEFAULT e, ON UPDATE e),
+  of `prDefCol` (MySQL only: UNSIGNED, ZEROFILL, CHARACTER SET s, COLLATE s, GENERATED ALWAYS AS (e) mode, NULL, NOT NULL,
+  AUTO_INCREMENT, DEFAULT e, ON UPDATE e),
   `COMMENT s`.  Strings the tree stores as raw source (comments, charset names, engine …) are one token `srcTok s`.
   The link `lex (prStmt d (.createTable c)) = toksCreate d c` is the lexer's business; it is checked by compiled evaluation
   (`#guard`s in `MsqProofs/Props/C18T.lean`).
@@ -69,11 +70,15 @@ def toksCharset : Option String → List Tok
 def toksCollate : Option String → List Tok
   | some s => [opTok "COLLATE", srcTok s]
   | none => []
+/-- `GENERATED ALWAYS AS (e) VIRTUAL|STORED` -/
+def toksGenerated : Option GenCol → List Tok
+  | some ⟨e, some m⟩ => [opTok "GENERATED", opTok "ALWAYS", opTok "AS", grp (W d noX e 8), srcTok m]
+  | _ => []
 /-- the MySQL-only attributes, in the order of `prDefCol` -/
 def toksMyAttrs (c : DefCol) (tail : List Tok) : List Tok :=
   flag c.unsigned [opTok "UNSIGNED"] ++ (flag c.zerofill [opTok "ZEROFILL"] ++ (toksCharset c.charset ++ (toksCollate c.collate ++
-    (flag c.allowNull [opTok "NULL"] ++ (flag c.notNull [opTok "NOT", opTok "NULL"] ++ (flag c.autoInc [opTok "AUTO_INCREMENT"] ++
-      (toksDefault d c.default ++ (toksOnUpdate d c.onUpdate ++ tail))))))))
+    (toksGenerated d c.generated ++ (flag c.allowNull [opTok "NULL"] ++ (flag c.notNull [opTok "NOT", opTok "NULL"] ++ (flag c.autoInc [opTok "AUTO_INCREMENT"] ++
+      (toksDefault d c.default ++ (toksOnUpdate d c.onUpdate ++ tail)))))))))
 def toksAttrs (c : DefCol) : List Tok :=
   if d == .MYSQL then toksMyAttrs d c (toksComment c.comment) else toksComment c.comment
 def toksDefCol (c : DefCol) : List Tok := nameTok c.name :: (toksType d c.type ++ toksAttrs d c)
@@ -162,11 +167,17 @@ def typeOK (t : ColType) : Bool :=
 def optFragE : Option Expr → Bool
   | none => true
   | some e => Frag d e
-/-- a column definition: no GENERATED clause; outside MySQL none of the attributes only the MySQL printer writes -/
+/-- the save mode of a generated column is the word the parser maps to itself (`VIRTUAL`, `STORED`) -/
+def modeOK (m : String) : Bool := match Gen.genColSaveModes.find? (·.1 == up m) with | some sm => sm.2 == m | none => false
+def genOK : Option GenCol → Bool
+  | none => true
+  | some ⟨e, some m⟩ => Frag d e && modeOK m
+  | some ⟨_, none⟩ => false
+/-- a column definition; outside MySQL none of the attributes only the MySQL printer writes -/
 def colOK (c : DefCol) : Bool :=
-  nameOK c.name && typeOK d c.type && c.generated.isNone &&
-    (if d == .MYSQL then optFragE d c.default && optFragE d c.onUpdate
-     else !c.unsigned && !c.zerofill && c.charset.isNone && c.collate.isNone && !c.allowNull && !c.notNull && !c.autoInc &&
+  nameOK c.name && typeOK d c.type &&
+    (if d == .MYSQL then optFragE d c.default && optFragE d c.onUpdate && genOK d c.generated
+     else c.generated.isNone && !c.unsigned && !c.zerofill && c.charset.isNone && c.collate.isNone && !c.allowNull && !c.notNull && !c.autoInc &&
        c.default.isNone && c.onUpdate.isNone)
 def idxColOK (c : IndexCol) : Bool := nameOK c.name && (match c.maxLen with | none => true | some n => intOK n)
 def optIntOK : Option Int → Bool | none => true | some n => intOK n
